@@ -1878,7 +1878,7 @@ def _load_pinned_attrs():
     return _PINNED_ATTRS
 
 
-def undo_attr_renames(modules, log=None):
+def undo_attr_renames(modules, log=None, local_only=False):
     """A private attribute of a class of the reference layout (a slot, an instance attribute, a class-level name) that is gone while a new one with exactly the
     same usage signature - the same stores / loads in the same methods, slot or not - appeared in that class was renamed: the old name is restored in the class
     (every `<x>.new` inside the class body, the `__slots__` entry, string constants equal to the new name in the class's module that name the slot, e.g.
@@ -1926,7 +1926,9 @@ def undo_attr_renames(modules, log=None):
             if isinstance(n, ast.keyword) and isinstance(n.value, ast.Constant) and n.value.value == newn:
                 n.value.value = old
         unique = len(new_to_old[newn]) == 1
-        if unique:
+        # (package-wide only where no *other* class of the reference layout has an attribute of the new name: that one is its own)
+        owned_elsewhere = any(newn in sig_ for cfq_, sig_ in ref['classes'].items() if cfq_ != f'{mname}:{cname}')
+        if unique and not local_only and not owned_elsewhere:
             for m2 in modules.values():
                 for n in ast.walk(m2.tree):
                     if isinstance(n, ast.Attribute) and n.attr == newn:
@@ -3067,7 +3069,7 @@ class Inliner:
         if h.kind in ('method', 'classmethod'):
             if recv is None:
                 return None
-            if h.kind == 'classmethod' and isinstance(recv, ast.Name) and recv.id != 'cls':
+            if h.kind == 'classmethod' and isinstance(recv, ast.Name) and recv.id == 'self':
                 # a classmethod called on an instance receives the instance's class
                 recv = ast.Attribute(value=recv, attr='__class__', ctx=ast.Load())
             bind[pos_params[0]] = recv
